@@ -146,6 +146,63 @@ def confirm_hang(derive, item, tries=3, limit=20):
     return n == tries
 
 
+# bodies each helper attribute documents (or nearly documents): used for the systematic sweep, where every
+# (derive, shape, body, position) and every pair of positions is tried, not sampled
+RELEVANT = {
+    "error": ["(source)", "(backtrace)", "(not(source))", "(not(backtrace))", "(ignore)", "(source, backtrace)", ""],
+    "from": ["", "(skip)", "(ignore)", "(forward)", "(u8)", "(u8, u16)", "((u8, u16))"],
+    "into": ["", "(skip)", "(ignore)", "(owned)", "(ref)", "(ref_mut)", "(owned, ref, ref_mut)", "(u8)", "(ref(u8))", "((u8, u16))"],
+    "as_ref": ["", "(skip)", "(ignore)", "(forward)", "(u8)", "(str, [u8])"],
+    "as_mut": ["", "(skip)", "(ignore)", "(forward)", "(u8)"],
+    "deref": ["", "(ignore)", "(forward)"], "deref_mut": ["", "(ignore)", "(forward)"],
+    "index": ["", "(ignore)"], "index_mut": ["", "(ignore)"],
+    "into_iterator": ["", "(ignore)", "(owned)", "(ref)", "(ref_mut)", "(owned, ref, ref_mut)"],
+    "is_variant": ["", "(ignore)"], "unwrap": ["", "(ignore)", "(ref)", "(ref_mut)", "(owned)", "(ref, ref_mut)"],
+    "try_unwrap": ["", "(ignore)", "(ref)", "(ref_mut)", "(owned)", "(ref, ref_mut)"],
+    "try_into": ["", "(ignore)", "(ref)", "(ref_mut)", "(owned)", "(owned, ref, ref_mut)"],
+    "try_from": ["(repr)", "(repr(u8))"],
+    "display": ["(\"lit\")", "(\"{}\", _0)", "(\"{_0} {x}\")", "(bound(T: Copy))", "(rename_all = \"snake_case\")", "(\"{_variant}\")"],
+    "debug": ["(skip)", "(ignore)", "(\"lit\")", "(\"{}\", _0)", "(\"{_0:?} {x:?}\")", "(bound(T: Copy))"],
+    "mul": ["(forward)"], "mul_assign": ["(forward)"],
+}
+
+
+def sweep_items(rng, table, limit_pairs):
+    """Every (derive, shape, relevant body, single slot) and - up to `limit_pairs` per (derive, shape) - every pair of slots."""
+    out = []
+    for feat, mod_, tr, attrs in table:
+        for at in attrs:
+            bodies = RELEVANT.get(at) or RELEVANT.get({"binary": "display", "octal": "display", "lower_hex": "display", "upper_hex": "display", "lower_exp": "display",
+                                                     "upper_exp": "display", "pointer": "display", "div": "mul", "rem": "mul", "shr": "mul", "shl": "mul",
+                                                     "div_assign": "mul_assign", "rem_assign": "mul_assign", "shr_assign": "mul_assign", "shl_assign": "mul_assign"}.get(at, ""), [""])
+            for shape in SHAPES:
+                slots = [m.start() for m in re.finditer(r"@[FV] ", shape)]
+                nslots = len(slots) + 1  # + item level
+
+                # simple explicit construction
+                def make(assign):
+                    k = [0]
+
+                    def rep(m):
+                        k[0] += 1
+                        b = assign.get(k[0])
+                        return "#[%s%s] " % (at, b) if b is not None else ""
+                    body = re.sub(r"@[FV] ", rep, shape)
+                    if assign.get(0) is not None:
+                        body = "#[%s%s] " % (at, assign[0]) + body
+                    return body
+                for pos in range(nslots):
+                    for b in bodies:
+                        out.append((tr, make({pos: b}), "sweep1"))
+                pairs = [(i, j) for i in range(nslots) for j in range(i + 1, nslots)]
+                combos = [(i, j, b1, b2) for (i, j) in pairs for b1 in bodies for b2 in bodies]
+                if len(combos) > limit_pairs:
+                    combos = rng.sample(combos, limit_pairs)
+                for i, j, b1, b2 in combos:
+                    out.append((tr, make({i: b1, j: b2}), "sweep2"))
+    return out
+
+
 def run(ctx):
     rng = ctx.rng
     inproc.build()
@@ -163,6 +220,7 @@ def run(ctx):
     cases = []
     for d, src, kind in mutated_items(rng, corpus, ctx.pick(12000, 300000)) + placement_items(rng, table, ctx.pick(40000, 600000)):
         cases.append((d, src, kind))
+    cases += sweep_items(rng, table, ctx.pick(12, 120))
     # every shape x every derive with no attribute at all
     for shape in SHAPES:
         base = re.sub(r"@[FV] ", "", shape)
